@@ -562,6 +562,19 @@ def lift_function(fn):
     return head + "\n" + "\n".join(lines), src
 
 
+# locals of the pinned functions in order of first binding (normalize.rename_locals: a consistent renaming of the locals of a
+# function leaves the generated text unchanged)
+VALUE_PINNED_LOCALS = {
+    "_get_labels_for_confusion_matrix": ["unique_labels", "labels01", "labels11"],
+    "true_positive_rate": ["unique_labels", "tnr", "fpr", "fnr", "tpr"],
+    "true_negative_rate": ["unique_labels", "tnr", "fpr", "fnr", "tpr"],
+    "false_positive_rate": ["unique_labels", "tnr", "fpr", "fnr", "tpr"],
+    "false_negative_rate": ["unique_labels", "tnr", "fpr", "fnr", "tpr"],
+    "mean_prediction": ["y_p", "s_w"],
+    "selection_rate": ["selected", "s_w"],
+}
+
+
 @translate.lifter
 def lift(repo):
     text = open(os.path.join(repo, REL)).read()
@@ -579,7 +592,9 @@ def lift(repo):
     for name in ORDER:
         if name not in fns:
             raise U(f"function {name} not found")
-        d, src = lift_function(fns[name])
+        from . import normalize
+        d, src = lift_function(normalize.rename_locals(fns[name], VALUE_PINNED_LOCALS[name]) if VALUE_PINNED_LOCALS.get(name)
+                               else fns[name])
         defs.append(f"/-- `{name}` ({REL}) -/\n{d}")
         meta_src[name] = hashlib.sha256(src.encode()).hexdigest()[:16]
     lean = f"""-- GENERATED by harness/lifters/base_metrics.py from {REL}; do not edit.
@@ -595,3 +610,216 @@ open BaseMetrics NumpySk
 """ + "\n\n".join(defs) + "\n\nend BaseMetricsSrc\n"
     meta = {"source": REL, "functions": meta_src, "sha256": hashlib.sha256(lean.encode()).hexdigest()}
     return "BaseMetricsSrc.lean", lean, meta
+
+
+# =====================================================================================================================
+# Shape-level translation: `_convert_to_ndarray_and_squeeze` (fairlearn/utils/_input_manipulations.py) and the closed
+# expressions of `selection_rate` / `mean_prediction` -> Generated/SqueezeSrc.lean over Model/NdShape.lean.
+# The value-level translation above reads `_convert_to_ndarray_and_squeeze(v)` of a VECTOR `v` as `v`; that reading is the
+# theorem `C14.src_squeeze_vector` about the function translated here, and "returns a scalar" is
+# `C14.src_selection_rate_scalar` / `src_mean_prediction_scalar` about the shape-level bodies.
+IM_REL = "fairlearn/utils/_input_manipulations.py"
+SQUEEZE = "_convert_to_ndarray_and_squeeze"
+SHAPE_FUNCS = {  # name -> parameters (name, kind); kind: shape | oshape (None allowed) | scalar (never an array operand)
+    "selection_rate": [("y_true", "shape"), ("y_pred", "shape"), ("pos_label", "scalar"), ("sample_weight", "oshape")],
+    "mean_prediction": [("y_true", "shape"), ("y_pred", "shape"), ("sample_weight", "oshape")],
+}
+
+
+# locals of the pinned functions in order of first binding (normalize.canon_function)
+SHAPE_PINNED_LOCALS = {SQUEEZE: ["result"], "selection_rate": ["selected", "s_w"], "mean_prediction": ["y_p", "s_w"]}
+
+
+def US(msg):
+    return translate.Untranslatable(f"shape translation: {msg}")
+
+
+def int_const(e):
+    if isinstance(e, ast.Constant) and isinstance(e.value, int) and not isinstance(e.value, bool):
+        return e.value
+    return None
+
+
+class ShapeFn:
+    """statement / expression translator into `Except ShapeErr` do-notation; every value is a Shape, a Nat (`len`) or a
+    scalar (a 0-d operand: shape `[]`)"""
+
+    def __init__(self, name, env, conv_name):
+        self.name, self.env, self.conv = name, dict(env), conv_name
+        self.known_some = set()
+
+    def err(self, msg, node=None):
+        ln = f" (line {node.lineno})" if node is not None and hasattr(node, "lineno") else ""
+        return US(f"{self.name}{ln}: {msg}")
+
+    def call_parts(self, e, n, what):
+        if e.keywords or len(e.args) != n or any(isinstance(a, ast.Starred) for a in e.args):
+            raise self.err(f"unexpected arguments of {what}: {ast.unparse(e)}", e)
+        return e.args
+
+    def shape(self, e):
+        """-> Lean term of type Shape (may contain `(← ...)`)"""
+        if isinstance(e, ast.Name):
+            k = self.env.get(e.id)
+            if k == "shape":
+                return ident(e.id)
+            if k == "oshape":
+                if e.id not in self.known_some:
+                    raise self.err(f"{e.id} used as an array without an `is not None` test", e)
+                return f"({ident(e.id)}.getD [])"
+            if k == "scalar":
+                return "([] : Shape)"
+            raise self.err(f"{e.id} is not an array here", e)
+        if isinstance(e, ast.Constant) and isinstance(e.value, (int, float)) and not isinstance(e.value, bool):
+            return "([] : Shape)"
+        if isinstance(e, ast.Compare) and len(e.ops) == 1 and isinstance(e.ops[0], (ast.Eq, ast.NotEq, ast.Lt, ast.Gt, ast.LtE, ast.GtE)):
+            return f"(← npBroadcast {self.shape(e.left)} {self.shape(e.comparators[0])})"
+        if isinstance(e, ast.BinOp) and isinstance(e.op, (ast.Add, ast.Sub, ast.Mult, ast.Div)):
+            return f"(← npBroadcast {self.shape(e.left)} {self.shape(e.right)})"
+        if isinstance(e, ast.Call):
+            f = dotted(e.func)
+            if f == SQUEEZE and self.conv is not None:
+                (a,) = self.call_parts(e, 1, f)
+                return f"(← {self.conv} {self.shape(a)})"
+            if f == "np.asarray":
+                (a,) = self.call_parts(e, 1, f)
+                return self.shape(a)
+            if f == "np.squeeze":
+                (a,) = self.call_parts(e, 1, f)
+                return f"(npSqueeze {self.shape(a)})"
+            if f in ("np.ones", "np.zeros"):
+                (a,) = self.call_parts(e, 1, f)
+                return f"[{self.nat(a)}]"
+            if f == "np.dot":
+                a, b = self.call_parts(e, 2, f)
+                return f"(← npDot {self.shape(a)} {self.shape(b)})"
+            if isinstance(e.func, ast.Attribute) and e.func.attr == "sum" and f != "np.sum":
+                self.call_parts(e, 0, ".sum()")
+                return f"(npSum {self.shape(e.func.value)})"
+            if isinstance(e.func, ast.Attribute) and e.func.attr == "squeeze" and f != "np.squeeze":
+                self.call_parts(e, 0, ".squeeze()")
+                return f"(npSqueeze {self.shape(e.func.value)})"
+            if isinstance(e.func, ast.Attribute) and e.func.attr == "reshape" and f != "np.reshape":
+                if e.keywords or not e.args:
+                    raise self.err(f"unexpected arguments of reshape: {ast.unparse(e)}", e)
+                dims = e.args[0].elts if len(e.args) == 1 and isinstance(e.args[0], (ast.Tuple, ast.List)) else e.args
+                ks = [int_const(d) for d in dims]
+                if any(k is None or k < 0 for k in ks):
+                    raise self.err(f"reshape to something that is not a list of non-negative integer constants: {ast.unparse(e)}", e)
+                return f"(← npReshape {self.shape(e.func.value)} [{', '.join(str(k) for k in ks)}])"
+        raise self.err(f"unsupported array expression {ast.unparse(e)}", e)
+
+    def nat(self, e):
+        k = int_const(e)
+        if k is not None and k >= 0:
+            return str(k)
+        if isinstance(e, ast.Call) and dotted(e.func) == "len":
+            (a,) = self.call_parts(e, 1, "len")
+            return f"(← npLen {self.shape(a)})"
+        if isinstance(e, ast.Attribute) and e.attr == "size":
+            return f"(size {self.shape(e.value)})"
+        raise self.err(f"unsupported integer expression {ast.unparse(e)}", e)
+
+    def cond(self, e):
+        """-> (Lean Bool term, name known to be not None in the then-branch or None)"""
+        if isinstance(e, ast.Compare) and len(e.ops) == 1:
+            l, op, r = e.left, e.ops[0], e.comparators[0]
+            if isinstance(l, ast.Name) and self.env.get(l.id) == "oshape" and isinstance(r, ast.Constant) and r.value is None \
+                    and isinstance(op, ast.IsNot):
+                return f"{ident(l.id)}.isSome", l.id
+            sym = {ast.Eq: "==", ast.NotEq: "!=", ast.Gt: ">", ast.GtE: "≥", ast.Lt: "<", ast.LtE: "≤"}.get(type(op))
+            if sym is not None:
+                a, b = self.nat(l), self.nat(r)
+                return (f"({a} {sym} {b})" if sym in ("==", "!=") else f"decide ({a} {sym} {b})"), None
+        raise self.err(f"unsupported condition {ast.unparse(e)}", e)
+
+    def block(self, body, ind):
+        out = []
+        for st in body:
+            out.extend(self.stmt(st, ind))
+        return out or [ind + "pure ()"]
+
+    def stmt(self, st, ind):
+        if isinstance(st, ast.Assign) and len(st.targets) == 1 and isinstance(st.targets[0], ast.Name):
+            nm = st.targets[0].id
+            if self.env.get(nm, "shape") != "shape":
+                raise self.err(f"assignment to the parameter {nm}", st)
+            s = self.shape(st.value)
+            new = nm not in self.env
+            self.env[nm] = "shape"
+            return [f"{ind}{'let mut ' if new else ''}{ident(nm)} := {s}"]
+        if isinstance(st, ast.If):
+            c, some = self.cond(st.test)
+            saved = set(self.known_some)
+            if some:
+                self.known_some.add(some)
+            before = set(self.env)
+            then = self.block(st.body, ind + "  ")
+            self.known_some = saved
+            els = self.block(st.orelse, ind + "  ") if st.orelse else None
+            if set(self.env) != before:
+                raise self.err("a local is introduced inside a branch", st)
+            return [f"{ind}if {c} then"] + then + ([f"{ind}else"] + els if els else [])
+        if isinstance(st, ast.Raise):
+            exc = st.exc
+            if isinstance(exc, ast.Call) and dotted(exc.func) == "ValueError":
+                return [f"{ind}throw ShapeErr.valueError"]
+            raise self.err(f"unsupported raise {ast.unparse(st)}", st)
+        if isinstance(st, ast.Return) and st.value is not None:
+            return [f"{ind}return {self.shape(st.value)}"]
+        raise self.err(f"unsupported statement {ast.unparse(st)[:80]}", st)
+
+
+def lift_shape_function(fn, params, lean_nm, conv_name, doc):
+    a = fn.args
+    names = [x.arg for x in a.posonlyargs + a.args + a.kwonlyargs]
+    if a.vararg or a.kwarg or names != [p for p, _ in params]:
+        raise US(f"{fn.name}: parameters {names}")
+    from . import normalize
+    fn = normalize.canon_function(fn, SHAPE_PINNED_LOCALS.get(fn.name, []),
+                                  extra_funcs=(SQUEEZE, "len", "np.ones", "np.zeros", "np.asarray", "np.squeeze", "np.dot"),
+                                  extra_methods=("sum", "reshape", "squeeze"))
+    tr = ShapeFn(fn.name, dict(params), conv_name)
+    body = list(fn.body)
+    if not body or not isinstance(body[-1], ast.Return):
+        raise US(f"{fn.name}: the body does not end with a return statement")
+    lines = []
+    for st in body:
+        lines.extend(tr.stmt(st, "  "))
+    ps = " ".join(f"({ident(p)} : {'Shape' if k == 'shape' else 'Option Shape'})" for p, k in params if k != "scalar")
+    return f"/-- {doc} -/\ndef {lean_nm} {ps} : Except ShapeErr Shape := do\n" + "\n".join(lines)
+
+
+@translate.lifter
+def lift_squeeze(repo):
+    from . import normalize
+    im = normalize.parse(open(os.path.join(repo, IM_REL)).read())
+    fns = {n.name: n for n in im.body if isinstance(n, ast.FunctionDef)}
+    if SQUEEZE not in fns:
+        raise US(f"{SQUEEZE} not found in {IM_REL}")
+    conv = lift_shape_function(fns[SQUEEZE], [("target", "shape")], "convert_to_ndarray_and_squeeze_shape", None,
+                               f"`{SQUEEZE}` ({IM_REL}): the shape of the result for `np.asarray(target).shape = target`")
+    bm = normalize.parse(open(os.path.join(repo, REL)).read())
+    bfns = {n.name: n for n in bm.body if isinstance(n, ast.FunctionDef)}
+    # the helper must be THE function translated above (imported from the module, not redefined / aliased)
+    imported = any(isinstance(n, ast.ImportFrom) and (n.module or "").endswith("_input_manipulations")
+                   and any(al.name == SQUEEZE and al.asname in (None, SQUEEZE) for al in n.names) for n in bm.body)
+    if not imported or SQUEEZE in bfns:
+        raise US(f"{REL} does not import {SQUEEZE} from utils._input_manipulations")
+    defs = [conv]
+    for name, params in SHAPE_FUNCS.items():
+        if name not in bfns:
+            raise US(f"function {name} not found")
+        defs.append(lift_shape_function(bfns[name], params, name + "_shape", "convert_to_ndarray_and_squeeze_shape",
+                                        f"`{name}` ({REL}): the shape of the returned value, from the shapes of the arguments"))
+    lean = f"""-- GENERATED by harness/lifters/base_metrics.py (lift_squeeze) from {IM_REL}, {REL}; do not edit.
+-- Shape-level translation (which numpy shape every intermediate value has) over the primitives of Model/NdShape.lean.
+import FairModel.Model.NdShape
+
+set_option linter.unusedVariables false
+
+namespace SqueezeSrc
+open NdShape
+
+""" + "\n\n".join(defs) + "\n\nend SqueezeSrc\n"
+    return "SqueezeSrc.lean", lean, {"sources": [IM_REL, REL], "sha256": hashlib.sha256(lean.encode()).hexdigest()}
